@@ -526,6 +526,97 @@ def explore_arrive_leave(res, tier, unlisted):
         res.bounds[name] = "deviations<=%s" % ex.stats.bound_completed
 
 
+# ------------------------------------------------------------------ forking server: several children exiting together
+def forking_leave_run(nclients, mode):
+    """several clients of a ForkingServer leave at (about) the same time: their children exit, SIGCHLD is not queued, and the
+    server must still collect every one of them (no zombies, no descriptors) on every schedule inside the window"""
+    def run(choices, want_state, cut_fn):
+        box = {}
+
+        def main():
+            sch = S.current_sched()
+            sch.armed = False
+            srv = H.make_server("forking")
+            st = S.SimThread(target=srv.start, name="server")
+            st.start()
+            S.sim_time.sleep(0.2)
+            cs = [H.Client(chr(97 + i), timeout=10) for i in range(nclients)]
+            res = {}
+            for c in cs:
+                res[c.name + ".connect"] = c.connect()
+                res[c.name + ".call"] = c.call("echo", 0)[:2]
+                S.sim_time.sleep(0.3)
+            sch.armed = True
+            for c in cs:
+                if mode == "graceful":
+                    c.graceful()
+                else:
+                    c.abrupt()
+            S.sim_time.sleep(1.5)
+            sch.armed = False
+            res["zombies"] = list(simos.procs().zombies())
+            res["running"] = list(simos.procs().running_children())
+            res["acct"] = H.server_accounting(srv, cs)
+            # the server goes on serving
+            n = H.Client("n", timeout=10)
+            res["later.connect"] = n.connect()
+            res["later.call"] = n.call("echo", 1)[:2]
+            n.graceful()
+            S.sim_time.sleep(0.5)
+            res["zombies2"] = list(simos.procs().zombies())
+            srv.close()
+            S.sim_time.sleep(0.5)
+            box["res"] = res
+            for c in cs + [n]:
+                c.actor.stop = True
+
+        import gc
+        gc.disable()
+        simos.reset_kernel()
+        simos.reset_procs()
+        del H.Svc.instances[:]
+        sch = S.Scheduler(choices, sync_points=True, io_points=True, horizon=5000, max_steps=400000, cut_fn=cut_fn)
+        sch.run(main)
+        res = box.get("res")
+        if sch.outcome == "cut":
+            return sch, {"violations": [], "outcome_key": None}
+        viol = []
+        tag = "forking:%s:%d" % (mode, nclients)
+        if sch.outcome != "done" or res is None:
+            viol.append(("forking-leave:scheduler:%s:%s" % (tag, sch.outcome), repr(sch.deadlock_info) + repr(sch.threads[0].exc)))
+            return sch, {"violations": viol, "outcome_key": sch.outcome}
+        if res["zombies"] or res["zombies2"]:
+            viol.append(("forking-leave:zombie-children-not-reaped:%s" % tag, "%r then %r" % (res["zombies"], res["zombies2"])))
+        if res["running"]:
+            viol.append(("forking-leave:children-still-running-after-their-clients-left:%s" % tag, repr(res["running"])))
+        if res["acct"]["fds"] != 1:
+            viol.append(("forking-leave:descriptors-left:%s" % tag, repr(res["acct"])))
+        if res["later.call"] != ("value", ("echo", 1)):
+            viol.append(("forking-leave:later-client-not-served:%s" % tag, repr(res["later.call"])))
+        return sch, {"violations": viol, "outcome_key": (tuple(res["zombies"]), tuple(res["zombies2"]), res["later.call"])}
+    return run
+
+
+def explore_forking_leave(res, tier, unlisted):
+    for nclients, mode in ((2, "drop"), (2, "graceful"), (3, "drop")):
+        if any(unlisted(v[0]) for v in res.violations):
+            return
+        ex = explore.ParallelExplorer(forking_leave_run(nclients, mode), bound=2 if tier == "quick" else 3, use_cache=False,
+                                      deviations=True, task_execs=40, warmup_execs=4, max_seconds=120 if tier == "quick" else 1200,
+                                      stop_on_violation=unlisted)
+        ex.explore()
+        ex.stats.states = max(ex.stats.states, ex.stats.executions)
+        ex.stats.transitions = max(ex.stats.transitions, ex.stats.executions)
+        best = {}
+        for sig, text, ch in ex.violations:
+            if sig not in best or len(ch) < len(best[sig][1]):
+                best[sig] = (text, ch)
+        ex.violations = [(sg, t, ch) for sg, (t, ch) in sorted(best.items())]
+        name = "forking-leave/%d/%s" % (nclients, mode)
+        res.add_explorer(name, ex)
+        res.bounds[name] = "deviations<=%s" % ex.stats.bound_completed
+
+
 def watch_close_lines():
     from mc import trace
     from rpyc.utils import server as rs
@@ -754,6 +845,10 @@ def replay(rep):
         watch_pool_lines()
         a = reuse_from_part(rep["part"], "C17")(rep["choices"], False, None)[1]["violations"]
         b = reuse_from_part(rep["part"], "C17")(rep["choices"], False, None)[1]["violations"]
+    elif rep.get("part", "").startswith("forking-leave"):
+        _, n_, mode = rep["part"].split("/")
+        a = forking_leave_run(int(n_), mode)(rep["choices"], False, None)[1]["violations"]
+        b = forking_leave_run(int(n_), mode)(rep["choices"], False, None)[1]["violations"]
     elif rep.get("part", "").startswith("arrive-leave"):
         watch_close_lines()
         _, kind, mode, fam = rep["part"].split("/")
@@ -827,6 +922,7 @@ def main(tier, replay_obj=None):
     explore_reuse(res, tier, "C17", unlisted)
     explore_leave_race(res, tier, unlisted)
     explore_arrive_leave(res, tier, unlisted)
+    explore_forking_leave(res, tier, unlisted)
     res.assumptions = ["simulated kernel (conformance-tested against the real one in selftest) - no socket buffer limits, no RST/FIN subtleties",
                        "each event is followed by %.1f virtual seconds of settling" % SETTLE,
                        "forking server: fork() is emulated for the one call shape rpyc uses (see mc/simos.py); signals other than SIGCHLD are not modelled"]
